@@ -118,7 +118,7 @@ impl<'p, 'd> Builder<'p, 'd> {
 
     fn gen_regex(&mut self, rule: usize, n_rules: usize, depth: usize) -> Regex {
         // 0 = token (simplest)
-        let w: [u32; 9] = if depth == 0 { [6, 3, 0, 0, 0, 0, 0, 0, 0] } else { [4, 3, 5, 3, 2, 2, 2, 1, if self.p.choice { 2 } else { 0 }] };
+        let w: [u32; 9] = if depth == 0 { [6, 3, 0, 0, 0, 0, 0, 0, 0] } else { [4, 3, 5, 3, 2, 4, 0, 1, if self.p.choice { 2 } else { 0 }] };
         match self.d.weighted(&w) {
             0 => self.plain_tok(),
             1 => {
@@ -143,8 +143,23 @@ impl<'p, 'd> Builder<'p, 'd> {
                 Regex::Alt((0..n).map(|_| self.gen_regex(rule, n_rules, depth - 1)).collect())
             }
             4 => Regex::Opt(Box::new(self.gen_regex(rule, n_rules, depth - 1))),
-            5 => Regex::Star(Box::new(self.gen_regex(rule, n_rules, depth - 1))),
-            6 => Regex::Plus(Box::new(self.gen_regex(rule, n_rules, depth - 1))),
+            5 | 6 => {
+                let body = self.gen_regex(rule, n_rules, depth - 1);
+                // a repetition directly over a repetition is inherently ambiguous
+                fn strip(r: &Regex) -> &Regex {
+                    match r {
+                        Regex::Paren(Some(b)) => strip(b),
+                        x => x,
+                    }
+                }
+                if matches!(strip(&body), Regex::Star(_) | Regex::Plus(_)) {
+                    body
+                } else if self.d.chance(1, 2) {
+                    Regex::Star(Box::new(body))
+                } else {
+                    Regex::Plus(Box::new(body))
+                }
+            }
             7 => {
                 if self.p.empty_rules && self.d.chance(1, 6) {
                     Regex::Paren(None)
@@ -336,7 +351,14 @@ pub fn repair(b: &mut Builder<'_, '_>) -> bool {
             Conflict::Alt(_, j) => prefix_with(node_mut(&mut b.g, &flat, j), t),
             Conflict::Loop(l) => {
                 let body = flat.nodes[l].children[0];
-                prefix_with(node_mut(&mut b.g, &flat, body), t)
+                if sets.nullable[body] {
+                    prefix_with(node_mut(&mut b.g, &flat, body), t)
+                } else {
+                    // delimiter after the construct: its follow set becomes {t}
+                    let node = node_mut(&mut b.g, &flat, l);
+                    let old = std::mem::replace(node, Regex::Elide);
+                    *node = Regex::Concat(vec![old, Regex::Tok(t, false)]);
+                }
             }
         }
         for r in b.g.rules.iter_mut() {
@@ -394,6 +416,58 @@ pub fn in_choice_rules(g: &Grammar) -> Vec<bool> {
         }
     }
     inc
+}
+
+/// Turn ordered choices that would be nested in an active choice (directly or through rule
+/// references) into plain alternations.
+pub fn denest_choices(g: &mut Grammar) {
+    fn walk(r: &mut Regex, active: bool, changed: &mut bool) {
+        match r {
+            Regex::Choice(v) if active => {
+                let v = std::mem::take(v);
+                *r = Regex::Alt(v);
+                *changed = true;
+                walk(r, active, changed);
+            }
+            Regex::Choice(v) => {
+                let n = v.len();
+                for (i, c) in v.iter_mut().enumerate() {
+                    walk(c, i + 1 < n, changed);
+                }
+            }
+            Regex::Concat(v) => {
+                let mut a = active;
+                for c in v.iter_mut() {
+                    walk(c, a, changed);
+                    if matches!(c, Regex::Commit) {
+                        a = false;
+                    }
+                }
+            }
+            _ => {
+                for c in r.children_mut() {
+                    walk(c, active, changed);
+                }
+            }
+        }
+    }
+    loop {
+        let inc = in_choice_rules(g);
+        let mut changed = false;
+        for (i, rule) in g.rules.iter_mut().enumerate() {
+            if let Some(b) = rule.body.as_mut() {
+                walk(b, inc[i], &mut changed);
+            }
+        }
+        if !changed {
+            break;
+        }
+        for r in g.rules.iter_mut() {
+            if let Some(body) = r.body.take() {
+                r.body = Some(body.normalize());
+            }
+        }
+    }
 }
 
 struct Deco<'x, 'p, 'd> {
@@ -589,7 +663,7 @@ pub fn build(p: &Profile, data: &[u32]) -> Grammar {
         b.g.rules.push(Rule { name: format!("r{i}"), elided: false, body: None });
     }
     for i in 0..n_rules {
-        let body = if p.pratt && b.d.chance(1, 4) {
+        let body = if p.pratt && i != 0 && b.d.chance(1, 4) {
             b.gen_pratt(i, n_rules)
         } else if p.empty_rules && i > 0 && b.d.chance(1, 16) {
             None
@@ -598,6 +672,20 @@ pub fn build(p: &Profile, data: &[u32]) -> Grammar {
             Some(b.gen_regex(i, n_rules, depth))
         };
         b.g.rules[i].body = body.map(|x| x.normalize());
+    }
+    // productivity: give every unproductive rule a token alternative
+    loop {
+        let prod = refan::productive_rules(&b.g);
+        let Some(u) = prod.iter().position(|x| !*x) else { break };
+        let t = b.plain_tok();
+        let old = b.g.rules[u].body.take().unwrap();
+        b.g.rules[u].body = Some(match old {
+            Regex::Alt(mut v) => {
+                v.push(t);
+                Regex::Alt(v)
+            }
+            o => Regex::Alt(vec![o, t]).normalize(),
+        });
     }
     // reachability: unreferenced rules become parts, get attached, or are dropped
     loop {
@@ -636,6 +724,9 @@ pub fn build(p: &Profile, data: &[u32]) -> Grammar {
             }
         }
     }
+    if p.choice {
+        denest_choices(&mut b.g);
+    }
     if p.repair {
         repair(&mut b);
     }
@@ -652,8 +743,8 @@ pub fn build(p: &Profile, data: &[u32]) -> Grammar {
     if need_deco {
         for i in 0..n_rules {
             let inc = in_choice_rules(&b.g);
-            let Some(body) = b.g.rules[i].body.take() else { continue };
             let is_pratt = b.g.is_pratt(i);
+            let Some(body) = b.g.rules[i].body.take() else { continue };
             let is_start = i == b.g.start;
             let elided = b.g.rules[i].elided;
             let mut d = Deco {
